@@ -108,7 +108,7 @@ Definition r_statuses (s : rstate) : list (Z * Z) :=
                  | None => (2, 0)%Z
                  | Some _ => match rpcof th with
                              | RIdle => (0%Z, Z.of_nat (ropi th))
-                             | RScheduling => (1%Z, Z.of_nat (ropi th))
+                             | _ => (1%Z, Z.of_nat (ropi th))
                              end
                  end) (rthreads s) ++
   map (fun tk => match tst tk with
@@ -146,17 +146,19 @@ Definition w_at_gate (s : wstate) (x : nat) : bool :=
     end
   end.
 
-(* the caller returns when the dispatcher is done, or (mr) as soon as a mapper panicked *)
-Definition w_caller_done (s : wstate) : bool :=
+(* the caller returns when the dispatcher is done; mr.ForEach (waitall = false) re-panics as
+   soon as a mapper panicked, mr.MapReduce / MapReduceVoid / MapReduceChan / Finish (waitall =
+   true) first wait for the reducer, i.e. for every started mapper *)
+Definition w_caller_done (waitall : bool) (s : wstate) : bool :=
   match wd s with
   | DDone => true
-  | _ => match wvar s with WMr => wfailed s | WFx => false end
+  | _ => match wvar s with WMr => wfailed s && negb waitall | WFx => false end
   end.
 
-Definition w_statuses (s : wstate) : list (Z * Z) :=
+Definition w_statuses (waitall : bool) (s : wstate) : list (Z * Z) :=
   (match wd s with
    | DInit => (0, 0)%Z
-   | _ => if w_caller_done s then (2, 0)%Z else (1, 0)%Z
+   | _ => if w_caller_done waitall s then (2, 0)%Z else (1, 0)%Z
    end) ::
   map (fun tk => match wst tk with
                  | WRun => (3, 0)%Z
@@ -164,33 +166,75 @@ Definition w_statuses (s : wstate) : list (Z * Z) :=
                  | _ => (1, 0)%Z
                  end) (wtasks s).
 
-Definition w_results (s : wstate) : list (list Z) :=
-  [if w_caller_done s
+Definition w_results (waitall : bool) (s : wstate) : list (list Z) :=
+  [if w_caller_done waitall s
    then [match wvar s with WMr => if wfailed s then 3%Z else 1%Z | WFx => 1%Z end]
    else []].
+
+(* ---- WG (WorkerGroup): actor 0 = the caller of Start, actor k+1 = the k-th job invocation ---- *)
+Definition g_at_gate (s : gstate) (x : nat) : bool :=
+  match x with
+  | O => match gd s with GInit => true | _ => false end
+  | S k =>
+    match nth_error (gtasks s) k with
+    | Some tk => match wst tk with WRun | WDn => true | _ => false end
+    | None => true
+    end
+  end.
+
+Definition g_statuses (s : gstate) : list (Z * Z) :=
+  (match gd s with GInit => (0, 0)%Z | GDone => (2, 0)%Z | _ => (1, 0)%Z end) ::
+  map (fun tk => match wst tk with
+                 | WRun => (3, 0)%Z
+                 | WDn => (2, 0)%Z
+                 | _ => (1, 0)%Z
+                 end) (gtasks s).
+
+Definition g_results (s : gstate) : list (list Z) :=
+  [match gd s with GDone => [1%Z] | _ => [] end].
+
+Definition g_panics (items : list bool) (k : nat) : bool := nth k items false.
+
+(* ---- constructors with n <= 0 (outside the property's quantifier; pinned for the record):
+   obj 0 NewLimit, 1 NewTimeoutLimit, 2 NewTaskRunner: make(chan, n) panics iff n < 0;
+   3 NewPool: panics iff n <= 0.  Result 1 = constructed, 3 = panicked ---- *)
+Definition ctor_expect (obj : nat) (n : Z) : Z :=
+  match obj with
+  | 3%nat => if (n <=? 0)%Z then 3%Z else 1%Z
+  | _ => if (n <? 0)%Z then 3%Z else 1%Z
+  end.
 
 (* ---- cases ---- *)
 Inductive kase :=
 | KLim (n : nat) (scripts : list (list lop))
 | KTR (n : nat) (scripts : list (list rop))
 | KPL (n : nat) (maxage : Z) (scripts : list (list pop))
-| KWP (v : wvariant) (n : nat) (items : list bool).
+| KWP (v : wvariant) (waitall : bool) (n : nat) (items : list bool)
+| KWG (n : nat) (items : list bool)
+| KCtor (obj : nat) (n : Z)
+| KErr.     (* the implementation hung / never became quiescent: nothing can be confirmed *)
 
 (* events: kind 0 inv, 1 fs (body / task starts), 2 fe (ends), 3 ret (v1 = result),
    4 blk (seen blocked at a quiescent point), 5 create (v1 = id), 6 destroy (v1 = id),
    7 clock advanced by v1 *)
 Record ev := mkEv { et : Z; ea : nat; ek : Z; eop : nat; ev1 : Z }.
 
-Record case := mkCase
+(* one instance of a primitive with the threads that use it.  A run with several instances
+   at once is projected onto each instance: the steps of actors of another instance appear as
+   stutter steps (sa = an actor that does not exist, sskip = true), so the model checks that
+   nothing of THIS instance moved during them. *)
+Record case1 := mkCase
   { ckind : kase;
     cforced : bool;
     csteps : list ostep;
     cres : list (list Z);      (* observed results per thread *)
     clog : list ev }.
 
+Definition case := list case1.
+
 Definition zss_eqb := list_eqb (list_eqb Z.eqb).
 
-Definition agrees (c : case) : bool :=
+Definition agrees1 (c : case1) : bool :=
   if cforced c then
     match ckind c with
     | KLim n sc =>
@@ -202,13 +246,20 @@ Definition agrees (c : case) : bool :=
     | KPL n ma sc =>
       let '(s, ok) := drive pstep p_at_gate (fun s _ => s) p_statuses (pinit n ma sc) (csteps c) in
       ok && zss_eqb (map pres (pthreads s)) (cres c)
-    | KWP v n items =>
-      let '(s, ok) := drive wstep w_at_gate (fun s _ => s) w_statuses (winit v n items) (csteps c) in
-      ok && zss_eqb (w_results s) (cres c)
+    | KWP v wa n items =>
+      let '(s, ok) := drive wstep w_at_gate (fun s _ => s) (w_statuses wa) (winit v n items) (csteps c) in
+      ok && zss_eqb (w_results wa s) (cres c)
+    | KWG n items =>
+      let '(s, ok) := drive (gstep (g_panics items)) g_at_gate (fun s _ => s) g_statuses (ginit n) (csteps c) in
+      ok && zss_eqb (g_results s) (cres c)
+    | KCtor obj n => zss_eqb [[ctor_expect obj n]] (cres c)
+    | KErr => false
     end
   else true.
 
-Definition model_obs (c : case) : list (Z * Z) * list (list Z) :=
+Definition agrees (c : case) : bool := forallb agrees1 c.
+
+Definition model_obs1 (c : case1) : list (Z * Z) * list (list Z) :=
   match ckind c with
   | KLim n sc =>
     let '(s, ok) := drive lstep l_at_gate l_after l_statuses (linit n sc) (csteps c) in
@@ -219,10 +270,17 @@ Definition model_obs (c : case) : list (Z * Z) * list (list Z) :=
   | KPL n ma sc =>
     let '(s, ok) := drive pstep p_at_gate (fun s _ => s) p_statuses (pinit n ma sc) (csteps c) in
     (p_statuses s, map pres (pthreads s))
-  | KWP v n items =>
-    let '(s, ok) := drive wstep w_at_gate (fun s _ => s) w_statuses (winit v n items) (csteps c) in
-    (w_statuses s, w_results s)
+  | KWP v wa n items =>
+    let '(s, ok) := drive wstep w_at_gate (fun s _ => s) (w_statuses wa) (winit v n items) (csteps c) in
+    (w_statuses wa s, w_results wa s)
+  | KWG n items =>
+    let '(s, ok) := drive (gstep (g_panics items)) g_at_gate (fun s _ => s) g_statuses (ginit n) (csteps c) in
+    (g_statuses s, g_results s)
+  | KCtor obj n => ([], [[ctor_expect obj n]])
+  | KErr => ([], [])
   end.
+
+Definition model_obs (c : case) := map model_obs1 c.
 
 (* ------------------------------------------------------------------ *)
 (* prop_ok: C05 evaluated directly on the observed event log.          *)
@@ -262,21 +320,30 @@ Fixpoint lim_scan (n : Z) (sc : list (list lop)) (l : list ev) (holders inside :
     end
   end.
 
-(* TR: live = accepted tasks that have not ended; running = tasks inside their body *)
-Fixpoint tr_scan (n : Z) (l : list ev) (live running : Z) : bool :=
+(* TR: live = accepted tasks that have not ended; running = tasks inside their body;
+   pending = Schedule calls invoked and not yet returned (they have done waitGroup.Add(1)).
+   Wait returns only when nothing is live or pending, and is seen blocked only otherwise. *)
+Fixpoint tr_scan (n : Z) (sc : list (list rop)) (l : list ev) (live running pending : Z) : bool :=
   match l with
   | [] => true
   | e :: l' =>
     let k := ek e in
     let r := ev1 e in
-    let '(ok, lv, rn) :=
+    let o := nth_op sc (ea e) (eop e) in
+    let iswait := match o with Some RWait => true | _ => false end in
+    let issched := match o with Some (RSched _) => true | _ => false end in
+    let '(ok, lv, rn, pd) :=
       if (k =? 3)%Z then
-        if (r =? 1)%Z then ((live <? n)%Z, (live + 1)%Z, running) else ((live =? n)%Z, live, running)
-      else if (k =? 1)%Z then ((running <? n)%Z, live, (running + 1)%Z)
-      else if (k =? 2)%Z then (true, (live - 1)%Z, (running - 1)%Z)
-      else if (k =? 4)%Z then ((live =? n)%Z, live, running)
-      else (true, live, running) in
-    ok && (lv <=? n)%Z && tr_scan n l' lv rn
+        if iswait then ((live =? 0)%Z && (pending =? 0)%Z, live, running, pending)
+        else if (r =? 1)%Z then ((live <? n)%Z, (live + 1)%Z, running, if issched then (pending - 1)%Z else pending)
+        else ((live =? n)%Z, live, running, pending)
+      else if (k =? 0)%Z then (true, live, running, if issched then (pending + 1)%Z else pending)
+      else if (k =? 1)%Z then ((running <? n)%Z, live, (running + 1)%Z, pending)
+      else if (k =? 2)%Z then (true, (live - 1)%Z, (running - 1)%Z, pending)
+      else if (k =? 4)%Z then
+        (if iswait then (0 <? live)%Z || (0 <? pending)%Z else (live =? n)%Z, live, running, pending)
+      else (true, live, running, pending) in
+    ok && (lv <=? n)%Z && tr_scan n sc l' lv rn pd
   end.
 
 (* PL *)
@@ -286,11 +353,19 @@ Record pmon := mkPM
     mfresh : list Z;              (* created, not yet handed out *)
     mdead : list Z;               (* destroyed *)
     mseen : list Z;               (* every id ever created *)
-    mlive : Z; mclock : Z }.
+    mlive : Z; mclock : Z;
+    mput : list Z }.              (* given up by its user (Put invoked), Put not yet seen returning *)
 
 Definition zmem (x : Z) (l : list Z) : bool := existsb (Z.eqb x) l.
 Definition zremove (x : Z) (l : list Z) : list Z := filter (fun y => negb (Z.eqb x y)) l.
 
+Definition pm_set (m : pmon) held idle fresh dead seen live put : pmon :=
+  mkPM held idle fresh dead seen live (mclock m) put.
+
+(* A user gives a resource up when it INVOKES Put (the harness clears its in-use flag before
+   the call): from then on the pool may hand it to somebody else, even before the Put is seen
+   returning (the two "ret" events are logged by two goroutines after the pool lock has been
+   released, in either order). *)
 Fixpoint pl_scan (n maxage : Z) (sc : list (list pop)) (l : list ev) (m : pmon) : bool :=
   match l with
   | [] => true
@@ -301,26 +376,37 @@ Fixpoint pl_scan (n maxage : Z) (sc : list (list pop)) (l : list ev) (m : pmon) 
     let '(ok, m') :=
       if (k =? 5)%Z then
         (negb (zmem x (mseen m)) && (mlive m <? n)%Z,
-         mkPM (mheld m) (midle m) (x :: mfresh m) (mdead m) (x :: mseen m) (mlive m + 1)%Z (mclock m))
+         pm_set m (mheld m) (midle m) (x :: mfresh m) (mdead m) (x :: mseen m) (mlive m + 1)%Z (mput m))
       else if (k =? 6)%Z then
         (match find (fun p => Z.eqb (fst p) x) (midle m) with
          | Some p => exp (snd p)
          | None => false
          end,
-         mkPM (mheld m) (filter (fun p => negb (Z.eqb (fst p) x)) (midle m)) (mfresh m) (x :: mdead m)
-              (mseen m) (mlive m - 1)%Z (mclock m))
+         pm_set m (mheld m) (filter (fun p => negb (Z.eqb (fst p) x)) (midle m)) (mfresh m) (x :: mdead m)
+                (mseen m) (mlive m - 1)%Z (mput m))
       else if (k =? 7)%Z then
-        (true, mkPM (mheld m) (midle m) (mfresh m) (mdead m) (mseen m) (mlive m) (mclock m + x)%Z)
+        (true, mkPM (mheld m) (midle m) (mfresh m) (mdead m) (mseen m) (mlive m) (mclock m + x)%Z (mput m))
       else if (k =? 4)%Z then
         (* blocked: behind a create() in progress (the pool lock is held across it), or a Get
            at the limit with nothing idle *)
         (match mfresh m with
          | _ :: _ => true
          | [] => match nth_op sc (ea e) (eop e) with
-                 | Some PGet => (mlive m =? n)%Z && match midle m with [] => true | _ => false end
+                 | Some PGet => (mlive m =? n)%Z && match midle m, mput m with [], [] => true | _, _ => false end
                  | _ => false
                  end
          end, m)
+      else if (k =? 0)%Z then
+        match nth_op sc (ea e) (eop e) with
+        | Some PPut =>
+          match find (fun p => Nat.eqb (snd p) (ea e)) (mheld m) with
+          | Some p =>
+            (true, pm_set m (filter (fun q => negb (Z.eqb (fst q) (fst p))) (mheld m)) (midle m) (mfresh m) (mdead m)
+                          (mseen m) (mlive m) (fst p :: mput m))
+          | None => (true, m)
+          end
+        | _ => (true, m)
+        end
       else if (k =? 3)%Z then
         match nth_op sc (ea e) (eop e) with
         | Some PGet =>
@@ -328,17 +414,19 @@ Fixpoint pl_scan (n maxage : Z) (sc : list (list pop)) (l : list ev) (m : pmon) 
           let src :=
             match find (fun p => Z.eqb (fst p) x) (midle m) with
             | Some p => negb (exp (snd p))
-            | None => zmem x (mfresh m)
+            | None => zmem x (mfresh m) || zmem x (mput m)
             end in
           (notheld && src,
-           mkPM ((x, ea e) :: mheld m) (filter (fun p => negb (Z.eqb (fst p) x)) (midle m))
-                (zremove x (mfresh m)) (mdead m) (mseen m) (mlive m) (mclock m))
+           pm_set m ((x, ea e) :: mheld m) (filter (fun p => negb (Z.eqb (fst p) x)) (midle m))
+                  (zremove x (mfresh m)) (mdead m) (mseen m) (mlive m) (zremove x (mput m)))
         | Some PPut =>
           if (x <? 0)%Z then (true, m)
+          else if zmem x (mput m) then
+            (true, pm_set m (mheld m) ((x, mclock m) :: midle m) (mfresh m) (mdead m) (mseen m) (mlive m)
+                          (zremove x (mput m)))
           else
-            (existsb (fun p => Z.eqb (fst p) x && Nat.eqb (snd p) (ea e)) (mheld m),
-             mkPM (filter (fun p => negb (Z.eqb (fst p) x)) (mheld m)) ((x, mclock m) :: midle m)
-                  (mfresh m) (mdead m) (mseen m) (mlive m) (mclock m))
+            (* already handed on to the next user: it must be held by somebody else by now *)
+            (existsb (fun p => Z.eqb (fst p) x && negb (Nat.eqb (snd p) (ea e))) (mheld m), m)
         | _ => (true, m)
         end
       else (true, m) in
@@ -365,10 +453,20 @@ Definition wp_complete (v : wvariant) (items : list bool) (l : list ev) : bool :
   | WMr => if existsb (fun b => b) items then true else Nat.eqb ended (length items)
   end.
 
-Definition prop_ok (c : case) : bool :=
+(* WG: exactly n job invocations once the run has been drained *)
+Definition wg_complete (n : nat) (l : list ev) : bool :=
+  Nat.eqb (length (filter (fun e => (ek e =? 2)%Z) l)) n &&
+  Nat.eqb (length (filter (fun e => (ek e =? 1)%Z) l)) n.
+
+Definition prop_ok1 (c : case1) : bool :=
   match ckind c with
   | KLim n sc => lim_scan (Z.of_nat n) sc (clog c) 0 0
-  | KTR n sc => tr_scan (Z.of_nat n) (clog c) 0 0
-  | KPL n ma sc => pl_scan (Z.of_nat n) ma sc (clog c) (mkPM [] [] [] [] [] 0 1000000)
-  | KWP v n items => wp_scan (Z.of_nat n) (clog c) 0 [] && wp_complete v items (clog c)
+  | KTR n sc => tr_scan (Z.of_nat n) sc (clog c) 0 0 0
+  | KPL n ma sc => pl_scan (Z.of_nat n) ma sc (clog c) (mkPM [] [] [] [] [] 0 1000000 [])
+  | KWP v wa n items => wp_scan (Z.of_nat n) (clog c) 0 [] && wp_complete v items (clog c)
+  | KWG n items => wp_scan (Z.of_nat n) (clog c) 0 [] && wg_complete n (clog c)
+  | KCtor _ _ => true
+  | KErr => false
   end.
+
+Definition prop_ok (c : case) : bool := forallb prop_ok1 c.
